@@ -100,8 +100,20 @@ def make_model(rng, kind):
         return m, 'x_0', 'y_0', 'flux', dict(radius=(2, 5)), True
     if kind == 'imagepsf':
         ovs = int(rng.choice([1, 1, 2, 3]))
+        if rng.random() < 0.35:          # axis (viii): unequal oversampling along y and x
+            ovs = [(1, 2), (2, 1), (3, 2), (2, 4), (4, 2), (1, 3)][int(rng.integers(0, 6))]
         ny, nx = int(rng.integers(5, 16)), int(rng.integers(5, 16))
         m = P.ImagePSF(_kernel(rng, ny, nx), flux=rng.uniform(1, 50), oversampling=ovs)
+        return m, 'x_0', 'y_0', 'flux', {}, True
+    if kind == 'gridded':
+        from astropy.nddata import NDData
+        ovs = [(2, 2), (4, 2), (2, 4), (1, 3), (3, 1), (4, 4)][int(rng.integers(0, 6))]
+        ny, nx = int(rng.integers(7, 26)), int(rng.integers(7, 26))
+        npsf = int(rng.choice([1, 2, 4]))
+        pos = [(0, 0), (40, 0), (0, 40), (40, 40)][:npsf] if npsf != 2 else [(0, 10), (40, 10)]
+        data = np.array([_kernel(rng, ny, nx) for _ in range(npsf)])
+        m = P.GriddedPSFModel(NDData(data, meta={'grid_xypos': pos, 'oversampling': ovs}),
+                              flux=rng.uniform(1, 50))
         return m, 'x_0', 'y_0', 'flux', {}, True
     if kind == 'gauss+gauss':
         a = Gaussian2D(1.0, 0, 0, rng.uniform(.6, 2), rng.uniform(.6, 2), rng.uniform(0, 3))
@@ -118,11 +130,11 @@ def make_model(rng, kind):
 KINDS = {
     'analytic': ['gauss2d', 'moffat2d'],
     'prf': ['cgprf', 'gprf', 'cgpsf', 'gpsf', 'moffatpsf', 'airy'],
-    'imagepsf': ['imagepsf'],
+    'imagepsf': ['imagepsf', 'imagepsf', 'gridded'],
     'compound': ['gauss+gauss', 'prf+const'],
-    'bbox': ['gauss2d', 'cgprf', 'gprf', 'imagepsf', 'cgpsf'],
+    'bbox': ['gauss2d', 'cgprf', 'gprf', 'imagepsf', 'cgpsf', 'gridded', 'gridded'],
 }
-ALLKINDS = ['gauss2d', 'moffat2d', 'cgprf', 'gprf', 'imagepsf', 'gauss+gauss', 'cgpsf', 'prf+const']
+ALLKINDS = ['gauss2d', 'moffat2d', 'cgprf', 'gprf', 'imagepsf', 'gauss+gauss', 'cgpsf', 'prf+const', 'gridded']
 
 
 def _positions(rng, n, shape, cls, half):
@@ -313,7 +325,7 @@ def _gen_mmi(case):
         method = str(rng.choice(['center', 'interp', 'oversample', 'integrate'], p=[.08, .4, .4, .12]))
     elif rng.random() < 0.12:
         method = str(rng.choice(['interp', 'oversample']))
-    if method == 'integrate' and kind in ('imagepsf', 'airy', 'moffatpsf'):
+    if method == 'integrate' and kind in ('imagepsf', 'airy', 'moffatpsf', 'gridded'):
         method = 'oversample'
     oversample = int(rng.choice([1, 2, 3, 5, 10]))
     if method == 'integrate':
@@ -375,6 +387,42 @@ def _gen_mmi(case):
     if int_pos:
         xs, ys = np.round(xs), np.round(ys)
 
+    # ---- second list of generic axes -------------------------------------------------------------------
+    def row_shape(i):
+        if col_shape is not None:
+            return (int(col_shape[i]),) * 2 if col_shape.ndim == 1 else (int(col_shape[i, 0]), int(col_shape[i, 1]))
+        if kw_shape is not None:
+            return (kw_shape, kw_shape) if np.isscalar(kw_shape) else tuple(kw_shape)
+        return None
+    if n and ax.random() < 0.15:
+        # (ix) exact k / k + 0.5 of both parities (the window size parity comes from the even/odd model_shape draw)
+        for i in range(n):
+            if ax.random() < 0.7:
+                xs[i] = float(ax.integers(-1, shape[1] + 1)) + float(ax.choice([0.0, 0.5]))
+                ys[i] = float(ax.integers(-1, shape[0] + 1)) + float(ax.choice([0.0, 0.5]))
+        axes['2_parity_exact_k_and_half'] = 1
+    if n and ax.random() < 0.15 and row_shape(0) is not None:
+        # (ix)/(viii) the window overlaps the image by exactly its last column / row, at each of the four edges:
+        # ceil(pos - s/2) == n - 1 (right / top) or ceil(pos - s/2) + s == 1 (left / bottom)
+        for i in range(n):
+            if ax.random() < 0.6:
+                sy, sx = row_shape(i)
+                edge = str(ax.choice(['left', 'right', 'bottom', 'top']))
+                jitter = float(ax.choice([0.0, 0.0, -0.25, -0.5]))
+                if edge == 'right':
+                    xs[i] = shape[1] - 1 + sx / 2.0 + jitter
+                elif edge == 'left':
+                    xs[i] = 1 - sx / 2.0 + jitter
+                elif edge == 'top':
+                    ys[i] = shape[0] - 1 + sy / 2.0 + jitter
+                else:
+                    ys[i] = 1 - sy / 2.0 + jitter
+                if edge in ('left', 'right'):
+                    ys[i] = float(ax.uniform(0, shape[0] - 1))
+                else:
+                    xs[i] = float(ax.uniform(0, shape[1] - 1))
+                axes['2_window_on_last_pixel_' + edge] = 1
+
     # parameter values per row
     pvals = {x_name: xs, y_name: ys}
     if not default_unitful and (rng.random() < 0.9 or unitful):
@@ -423,9 +471,26 @@ def _gen_mmi(case):
     # axis (iii): dtype / byte order of the value columns (values are first rounded to the representation so
     # that the reference sees exactly the numbers the table holds)
     col_dtype = {}
+    if ax.random() < 0.08 and mag >= 1.0:
+        # (vii) integer / float16 flux columns: values rounded to what the dtype holds
+        for pn in amp_params:
+            if pn in pvals and n:
+                kind_ = str(ax.choice(['i8', 'i4', 'u2', 'f2']))
+                with np.errstate(all='ignore'):
+                    v_ = np.round(pvals[pn]) if kind_ != 'f2' else pvals[pn]
+                    if kind_ == 'u2':
+                        v_ = np.abs(v_)
+                    cast = v_.astype(kind_)
+                if np.all(np.isfinite(cast.astype(float))) and np.array_equal(cast.astype(float), v_.astype(kind_).astype(float)) \
+                        and float(np.max(np.abs(v_))) < {'i8': 2.0 ** 62, 'i4': 2.0 ** 31 - 1, 'u2': 65535.0, 'f2': 60000.0}[kind_]:
+                    pvals[pn] = cast.astype(float)
+                    col_dtype[pn] = kind_
+                    axes['2_dtype_flux_column_' + kind_] = 1
     layout_case = ax.random() < 0.12
     for pn in list(pvals):
         r_ = ax.random() if layout_case else 1.0
+        if pn in col_dtype:
+            continue
         if r_ < 0.3 and pn not in (x_name, y_name):
             with np.errstate(all='ignore'):
                 v32 = pvals[pn].astype('f4')
@@ -492,6 +557,21 @@ def _gen_mmi(case):
             t['local_bkg'] = bkg
     if rng.random() < 0.3:
         t.meta['note'] = 'c18'
+    if n and ax.random() < 0.1:
+        # (x) provenance: the table handed in is a slice of a larger table; the model was copied and evaluated before
+        from astropy.table import vstack as _vstack
+        pad = t[[0]].copy()
+        big_t = _vstack([pad, t, pad])
+        if ax.random() < 0.5:
+            t = big_t[1:-1]
+        else:
+            mask_rows = np.zeros(len(big_t), bool)
+            mask_rows[1:-1] = True
+            t = big_t[mask_rows]
+        t.meta.update(big_t.meta)
+        model = model.copy()
+        model(np.array([1.0, 2.5]), np.array([0.5, 3.0]))
+        axes['2_provenance_sliced_table_used_model'] = 1
 
     rows = []
     for i in range(n):
